@@ -25,17 +25,18 @@ where CL03<CS>: Scheme<PubKey = CL03PublicKey, PrivKey = CL03SecretKey>, CS::Has
     let widths: Vec<(&str, Integer)> = vec![("1", Integer::from(1)), ("2", Integer::from(2)), ("3", Integer::from(3)), ("4", Integer::from(4)), ("255", Integer::from(255)), ("2^64", pow2(64)), ("2^256-1", pow2(256) - 1u32)];
     let offsets: Vec<(&str, Integer)> = vec![("0", Integer::from(0)), ("1", Integer::from(1)), ("2^32", pow2(32))];
     #[derive(Clone)]
-    enum Kind { Complete, OutOfRange, Transplant, Leaf(usize, usize), Statement, SignFlip }
+    enum Kind { Complete, OutOfRange, Cheat, Transplant, Leaf(usize, usize), Statement, SignFlip }
     struct Root { id: String, s: usize, wi: usize, oi: usize, kind: Kind }
     let mut roots = Vec::new();
     for s in 0..2 { for wi in 0..widths.len() { for oi in 0..offsets.len() {
         roots.push(Root { id: format!("{}/{}/w={}/a={}/complete", CS::NAME, settings[s].0, widths[wi].0, offsets[oi].0), s, wi, oi, kind: Kind::Complete });
         if oi == 1 { roots.push(Root { id: format!("{}/{}/w={}/a={}/out-of-range", CS::NAME, settings[s].0, widths[wi].0, offsets[oi].0), s, wi, oi, kind: Kind::OutOfRange }); }
+        if oi == 2 && (s == 0 || env.thorough()) { roots.push(Root { id: format!("{}/{}/w={}/a={}/cheating-prover", CS::NAME, settings[s].0, widths[wi].0, offsets[oi].0), s, wi, oi, kind: Kind::Cheat }); }
     } } }
     for s in 0..2 { for wi in [1usize, 4, 6] { roots.push(Root { id: format!("{}/{}/w={}/transplant", CS::NAME, settings[s].0, widths[wi].0), s, wi, oi: 1, kind: Kind::Transplant }); roots.push(Root { id: format!("{}/{}/w={}/statement", CS::NAME, settings[s].0, widths[wi].0), s, wi, oi: 1, kind: Kind::Statement }); } }
     for (s, wi) in [(0usize, 4usize), (1, 6)] { if s == 1 && !env.thorough() { continue; } let nch = 16; for ch in 0..nch { roots.push(Root { id: format!("{}/{}/w={}/leaf-edits/chunk{}", CS::NAME, settings[s].0, widths[wi].0, ch), s, wi, oi: 1, kind: Kind::Leaf(ch, nch) }); } }
     roots.push(Root { id: format!("{}/{}/w=255/sign-flip", CS::NAME, settings[0].0), s: 0, wi: 4, oi: 1, kind: Kind::SignFlip });
-    env.ctx.set_rule("completeness: 2 (bases, modulus) settings x 7 interval widths {1,2,3,4,255,2^64,2^256-1} x 3 offsets {0,1,2^32} x 5 points {a, a+1, mid, b-1, b} => verify = true; honest prover out of range: x in {a-1, b+1, a-2^64, b+2^64} => no accepted proof (a prover panic is a refusal); transplants: per honest proof, 5 target commitments {commit(a-1), commit(b+1), commit(a-2^64), commit(-5), random group element} x ALL 16 keep/recompute patterns over {E_a_1, E_a_2, E_b_1, E_b_2} with E, E_prime re-targeted => rejected; statement edits: honest first, then shifted intervals of the same width (and an honest proof for the shifted interval must verify right after), bounds a+-1, b+-1, other bases, other modulus => rejected; transplants also re-target the honest commitment to the bounds [a+1, b] and [a, b-1] with all 16 patterns; leaf edits: every integer leaf +1/-1/zero/+N/sibling swap => rejected; sign flips: every group-element leaf v := N - v, searched over a pool of 32 honest proofs (acceptance depends on exponent parities) => rejected. State = (setting, interval, point / attack); non-trivial = the real verifier ran.");
+    env.ctx.set_rule("completeness: 2 (bases, modulus) settings x 7 interval widths {1,2,3,4,255,2^64,2^256-1} x 3 offsets {0,1,2^32} x 5 points {a, a+1, mid, b-1, b} => verify = true; honest prover out of range: x in {a-1, b+1, a-2^64, b+2^64} => no accepted proof (a prover panic is a refusal); cheating prover (hook: square part of a negative rest := 0, rejection loops give up after 64 draws) for x in {a-1, a-2, a-2^16, a-2^31, b+1, b+2, b+2^16, b+2^64} over all 7 widths at a = 2^32 => no accepted proof; transplants: per honest proof, 5 target commitments {commit(a-1), commit(b+1), commit(a-2^64), commit(-5), random group element} x ALL 16 keep/recompute patterns over {E_a_1, E_a_2, E_b_1, E_b_2} with E, E_prime re-targeted => rejected; statement edits: honest first, then shifted intervals of the same width (and an honest proof for the shifted interval must verify right after), bounds a+-1, b+-1, other bases, other modulus => rejected; transplants also re-target the honest commitment to the bounds [a+1, b] and [a, b-1] with all 16 patterns; leaf edits: every integer leaf +1/-1/zero/+N/sibling swap => rejected; sign flips: every group-element leaf v := N - v, searched over a pool of 32 honest proofs (acceptance depends on exponent parities) => rejected. State = (setting, interval, point / attack); non-trivial = the real verifier ran.");
     par_for(&roots, |_, r| {
         if !env.want(&r.id) || env.ctx.out_of_time() { return; }
         let (sn, g, h, n) = (&settings[r.s].0, &settings[r.s].1, &settings[r.s].2, &settings[r.s].3);
@@ -69,6 +70,30 @@ where CL03<CS>: Scheme<PubKey = CL03PublicKey, PrivKey = CL03SecretKey>, CS::Has
                     match p { O::Ok(p) => { expect_bool(env, &r.id, &format!("verify(prove(x = {} out of range))", pn), &verify(&p, g, h, n, &a, &b), false, true, "honest-prover-out-of-range", json!({"base": det0, "point": pn})); env.ctx.class("out-of-range:proof-rejected"); }
                               _ => { env.ctx.class("out-of-range:prover-refused"); env.ctx.add_extra("refusals_by_panic", 1); } }
                     env.ctx.trace();
+                }
+            }
+            Kind::Cheat => {
+                // a prover that knows an opening of E to a value OUTSIDE [a, b] and deviates from the protocol where the honest one
+                // fails (hook: the square part of a negative number is taken as 0; rejection loops give up after 64 draws)
+                for (pn, x) in [("a-1", a.clone() - 1u32), ("a-2", a.clone() - 2u32), ("a-2^16", a.clone() - pow2(16)), ("a-2^31", a.clone() - pow2(31)), ("b+1", b.clone() + 1u32), ("b+2", b.clone() + 2u32), ("b+2^16", b.clone() + pow2(16)), ("b+2^64", b.clone() + pow2(64))] {
+                    if !env.ctx.state(&[r.id.as_bytes(), pn.as_bytes()]) { continue; }
+                    let c = commit(&x, &rnd(pn), g, h, n);
+                    zkryptium::cl03::range_proof::verif_hooks::set_cheating_prover(true);
+                    let p = prove(&x, &c, &a, &b); env.ctx.step();
+                    zkryptium::cl03::range_proof::verif_hooks::set_cheating_prover(false);
+                    match p { O::Ok(p) => { expect_bool(env, &r.id, &format!("verify(proof of a cheating prover for x = {})", pn), &verify(&p, g, h, n, &a, &b), false, true, "cheating-prover-out-of-range", json!({"base": det0, "point": pn})); env.ctx.class("cheating-prover:proof-judged"); }
+                              _ => { env.ctx.class("cheating-prover:no-proof"); } }
+                    env.ctx.trace();
+                }
+                // control: the cheating switch changes nothing for an in-range value
+                if env.ctx.state(&[r.id.as_bytes(), b"control"]) {
+                    let c = commit(&mid, &rnd("cheat-control"), g, h, n);
+                    zkryptium::cl03::range_proof::verif_hooks::set_cheating_prover(true);
+                    let p = prove(&mid, &c, &a, &b); env.ctx.step();
+                    zkryptium::cl03::range_proof::verif_hooks::set_cheating_prover(false);
+                    match p { O::Ok(p) => { expect_bool(env, &r.id, "verify(prove(mid)) with the cheating switch on", &verify(&p, g, h, n, &a, &b), true, false, "complete", det0.clone()); }
+                              o => env.ctx.violation("C16:complete:prove-failed", &o.describe(), env.case(&r.id, det0.clone())) }
+                    env.ctx.class("cheating-prover:control"); env.ctx.trace();
                 }
             }
             Kind::Statement => {
@@ -114,9 +139,9 @@ where CL03<CS>: Scheme<PubKey = CL03PublicKey, PrivKey = CL03SecretKey>, CS::Has
                 for (tn, e_t, lo, hi) in &targets {
                     if hi <= lo { continue; }
                     let big_t = 2 * (T_PARAM + L_PARAM + 1) + (hi - lo).complete().significant_bits();
-                    let sq = Integer::from((hi - lo).complete().sqrt_ref());
-                    let aa = pow2(big_t) * lo - pow2(L_PARAM + T_PARAM + big_t / 2 + 1) * &sq;
-                    let bb = pow2(big_t) * hi + pow2(L_PARAM + T_PARAM + big_t / 2 + 1) * &sq;
+                    // the public offsets of the decomposition (scaled interval, [Boudot2000] 3.1.2)
+                    let aa = pow2(big_t) * lo;
+                    let bb = pow2(big_t) * hi;
                     let e_prime = modpow(e_t, &pow2(big_t), n);
                     let e_a = (e_prime.clone() * inv(&modpow(g, &aa, n), n)) % n;       // E_a = E'/g^aa
                     let e_b = (modpow(g, &bb, n) * inv(&e_prime, n)) % n;               // E_b = g^bb/E'
